@@ -14,9 +14,17 @@ pub struct Virt {
 }
 
 fn virt_rec(fasta: bool, k: u64) -> [u8; 32] {
-    let s = if fasta { format!(">{:010}.{:05} d\nACGTAC\nACGT\n", k >> 16, k & 0xffff) } else { format!("@{:010}.{:05} d\nACGT\n+\nIIII\n", k >> 16, k & 0xffff) };
-    let mut a = [0u8; 32];
-    a.copy_from_slice(s.as_bytes());
+    // (no format!: a sequential pass over 2^32 bytes renders 2^27 records)
+    let mut a: [u8; 32] = if fasta { *b">0000000000.00000 d\nACGTAC\nACGT\n" } else { *b"@0000000000.00000 d\nACGT\n+\nIIII\n" };
+    let (mut hi, mut lo) = (k >> 16, k & 0xffff);
+    for i in (1..=10).rev() {
+        a[i] = b'0' + (hi % 10) as u8;
+        hi /= 10;
+    }
+    for i in (12..=16).rev() {
+        a[i] = b'0' + (lo % 10) as u8;
+        lo /= 10;
+    }
     a
 }
 
@@ -60,6 +68,8 @@ pub enum Step {
     Next,
     Set,
     Seek(u64),
+    /// record sets are read until at least this many records have been delivered by the step; reported like one big set
+    Drain(u64),
 }
 
 macro_rules! far_driver {
@@ -101,6 +111,52 @@ macro_rules! far_driver {
                                 format!("{{\"op\":\"set\",\"k\":\"some\",\"n\":{},\"heads\":[{}],\"pos\":{}}}", n, shown.join(","), pj)
                             }
                         },
+                        Step::Drain(want) => {
+                            let mut n = 0u64;
+                            let mut first: Vec<String> = vec![];
+                            let mut last: std::collections::VecDeque<(u64, String)> = Default::default();
+                            let mut out = None;
+                            while n < want {
+                                match rdr.read_record_set(&mut rset) {
+                                    None => {
+                                        out = Some("{\"op\":\"set\",\"k\":\"none\"}".to_string());
+                                        break;
+                                    }
+                                    Some(Err(e)) => {
+                                        out = Some(format!("{{\"op\":\"set\",\"k\":\"err\",\"err\":{}}}", $errjson(&e)));
+                                        break;
+                                    }
+                                    Some(Ok(())) => {
+                                        let len = rset.len() as u64;
+                                        let near_end = n + len + 4096 >= want;
+                                        for r in &rset {
+                                            if n < 3 {
+                                                first.push(format!("{{\"i\":{},\"head\":{}}}", n, crate::util::jb(r.head())));
+                                            } else if near_end {
+                                                last.push_back((n, crate::util::jb(r.head())));
+                                                if last.len() > 3 {
+                                                    last.pop_front();
+                                                }
+                                            }
+                                            n += 1;
+                                        }
+                                    }
+                                }
+                            }
+                            match out {
+                                Some(o) => o,
+                                None => {
+                                    let mut shown = first;
+                                    shown.extend(last.iter().map(|(i, h)| format!("{{\"i\":{},\"head\":{}}}", i, h)));
+                                    let p: Option<(u64, u64)> = $posof(&rdr);
+                                    let pj = match p {
+                                        Some((l, b)) => format!("{{\"has\":true,\"line\":{},\"byte\":{}}}", limbs(l), limbs(b)),
+                                        None => "{\"has\":false}".to_string(),
+                                    };
+                                    format!("{{\"op\":\"set\",\"k\":\"some\",\"n\":{},\"heads\":[{}],\"pos\":{}}}", n, shown.join(","), pj)
+                                }
+                            }
+                        }
                         Step::Seek(k) => {
                             let before = seeks.load(std::sync::atomic::Ordering::SeqCst);
                             let to = seq_io::$m::Position::new($lines * k + 1, 32 * k);
